@@ -15,7 +15,7 @@ def StrOK (s : Str) : Prop := ∀ c ∈ s, c ≠ '\\' ∧ c ≠ ';'
 
 mutual
 def WF : Expr → Prop
-  | .int _ => True
+  | .int n => (decimal n).length ≤ maxIntDigits
   | .str s => StrOK s
   | .var name => Ident name
   | .call f args => Ident f ∧ WFList args
